@@ -482,5 +482,7 @@ def check(ck: Check) -> None:
     ck.run("R07.4", "dispatch tables are bijections", lambda: r07_4(ck))
     ck.run("R07.5", "id provenance", lambda: r07_5(ck))
     ck.run("R07.6", "single accepted encoding of the variable-length integer", lambda: r07_6(ck))
+    from .c08 import r08_3, r08_7
+    ck.run("R07.5b", "ids handed out by the store reader belong to the content they are attached to", lambda: (r08_3(ck), r08_7(ck, "R07.5")))
     ck.run("R07.7", "__eq__ completeness (notes)", lambda: r07_7(ck))
     ck.assume("nothing is encoded or decoded; injectivity of each primitive (fixed width, strict constant, length-prefixed, tagged) is by construction")
